@@ -335,6 +335,29 @@ class PropertyCheck(object):
     def add_item(self, item):
         self.items.append(item)
 
+    def bounded_native(self, clause, script, case, what, bound, cases=None):
+        """Run a native oracle as a bounded stand-in (labelled bounded, never counted as proved); a failing case is a
+        violation reproduced natively, with a replay file."""
+        root = self.E.repo.root if self.E is not None else None
+        try:
+            out = native(script, case, repo_root=root, timeout=900)
+        except Exception as e:
+            self.errors.append('bounded stand-in %s crashed: %r' % (script, e))
+            return None
+        if out.get('harness_error'):
+            self.errors.append('bounded stand-in %s: %s' % (script, out['harness_error'][-400:]))
+            return out
+        self.bounded.append({'what': what, 'bound': bound, 'cases': cases if cases is not None else out.get('cases'),
+                             'failures': out.get('count', 1 if out.get('fails') else 0), 'label': 'bounded'})
+        if out.get('fails'):
+            fn = 'replays/%s-bounded-%s.json' % (self.pid, re.sub(r'[^A-Za-z0-9]+', '-', clause.split('/', 1)[-1]))
+            os.makedirs(os.path.join(HERE, 'replays'), exist_ok=True)
+            with open(os.path.join(HERE, fn), 'w') as f:
+                json.dump({'property': self.pid, 'obligation': '%s (bounded stand-in)' % clause,
+                           'concretised_input': {'script': script, 'case': case}, 'native_observation': out}, f, indent=1, default=str)
+            self.violations.append((clause, fn, True))
+        return out
+
     # -- solving -------------------------------------------------------------------
     def solve(self):
         tmo = THOROUGH_TIMEOUT_MS if self.tier == 'thorough' else QUICK_TIMEOUT_MS
@@ -401,7 +424,9 @@ def finish(pc, props_mod):
     """Turn solved items into verdict, replay files, evidence.  Returns exit code."""
     pid = pc.pid
     os.makedirs(os.path.join(HERE, 'replays'), exist_ok=True)
-    os.makedirs(os.path.join(HERE, 'evidence'), exist_ok=True)
+    # a run against a scratch copy of the repository (PYVC_REPO) must not overwrite the evidence of /repo
+    evdir = os.path.join(HERE, '.scratch', 'evidence') if os.environ.get('PYVC_REPO') else os.path.join(HERE, 'evidence')
+    os.makedirs(evdir, exist_ok=True)
     baseline = load_json('baseline_obligations.json', {}).get(pid, None)
     known = [k for k in load_json('known_findings.json', {'findings': []})['findings'] if k.get('property') == pid]
     known_clauses = dict((k['clause'], k) for k in known if k.get('status') == 'known' and k.get('clause'))
@@ -598,7 +623,7 @@ def finish(pc, props_mod):
     }
     if pc.errors:
         ev['coverage']['errors'] = pc.errors
-    with open(os.path.join(HERE, 'evidence', '%s.json' % pid), 'w') as f:
+    with open(os.path.join(evdir, '%s.json' % pid), 'w') as f:
         json.dump(ev, f, indent=1, default=str)
     for l in lines:
         print(l)
